@@ -148,8 +148,8 @@ def ob_kernel_rate(ctx):
 
 
 # ---------------------------------------------------------------------- release scenarios
-def release_world(ctx, k, released_before=0, other=True, cap=None, real_kernel=False, pending=False, immature=False, real_sub=False):
-    W = HubWorld(ctx, n_validators=1, n_delegations=1)
+def release_world(ctx, k, released_before=0, other=True, cap=None, real_kernel=False, pending=False, immature=False, real_sub=False, fixed=None):
+    W = HubWorld(ctx, n_validators=1, n_delegations=1, fixed=fixed)
     I = W.I
     I.contracts_on = {'SignedInt::from_subtraction', 'Uint256*Decimal256'} if (MERGE_RATE or real_kernel) else set(CONTRACTS)
     if real_sub:
@@ -237,9 +237,10 @@ def edge_free(W, I, st, arrived, expected_b, expected_s, k):
 
 
 def ob_release(k, released_before, cap=None, light=False, real_kernel=False, pending=False, immature=False, only=None, real_sub=False,
-               other=True, shape=None):
+               other=True, shape=None, fixed=None):
     def ob(ctx):
-        W = release_world(ctx, k, released_before, other=other, cap=cap, real_kernel=real_kernel, pending=pending, immature=immature, real_sub=real_sub)
+        W = release_world(ctx, k, released_before, other=other, cap=cap, real_kernel=real_kernel, pending=pending, immature=immature, real_sub=real_sub,
+                          fixed=fixed)
         if shape is not None:
             shape(W)
         I = W.I
@@ -380,16 +381,19 @@ def ob_release(k, released_before, cap=None, light=False, real_kernel=False, pen
 
 def plain_batches(W):
     """many matured batches of the plainest shape: ids 1..k, every stored rate 1, bSei requests only (batch j holds 1000 x j),
-    exactly the expected coins arrived (no slashing), the caller holds the whole of every batch (times, periods, pools, supplies and
-    the recorded balance stay symbolic)"""
-    st = W.st
-    st.add(W.last_processed == 0)
-    tot = 0
-    for j, h in enumerate(W.hs):
-        st.add(h['bsei_wr'] == E, h['stsei_wr'] == E, h['stsei'] == 0, h['w_c']['stsei'] == 0, h['bsei'] == 1000 * (j + 1),
-               h['w_c']['bsei'] == 1000 * (j + 1))
-        tot = tot + 1000 * (j + 1)
-    st.add(W.hub_balance - W.prev_hub_balance == tot)
+    exactly the expected coins arrived (no slashing), the caller holds the whole of every batch; these are concrete values of
+    the world (constant-folded by the executor), while times, periods, pools, supplies and the balances stay symbolic"""
+    tot = sum(1000 * (j + 1) for j in range(len(W.hs)))
+    W.st.add(W.hub_balance - W.prev_hub_balance == tot)
+
+
+def plain_fixed(k):
+    d = {'last_processed_batch': 0, 'current_batch_id': k + 1}
+    for j in range(k):
+        t = str(j + 1)
+        d.update({'h%s_id' % t: j + 1, 'h%s_bsei' % t: 1000 * (j + 1), 'h%s_stsei' % t: 0, 'h%s_bsei_wrate' % t: E, 'h%s_stsei_wrate' % t: E,
+                  'w%sc_bsei' % t: 1000 * (j + 1), 'w%sc_stsei' % t: 0})
+    return d
 
 
 def seq_withdraw(W, st0, users):
@@ -519,7 +523,9 @@ OBLIGATIONS = [('kernel_from_subtraction', ob_kernel_from_subtraction), ('kernel
                ('release_k1_immature', ob_release(1, 0, real_kernel=True, pending=True, immature=True)),
                ('withdraw_k0_old1', ob_release(0, 1, real_kernel=True)), ('release_k2', ob_release(2, 0, light=True)),
                ('release_k3', ob_release(3, 0, light=True)),
-               ('release_k12_plain', ob_release(12, 0, light=True, other=False, shape=plain_batches,
+               ('release_k12_plain', ob_release(12, 0, light=True, other=False, shape=plain_batches, fixed=plain_fixed(12),
+                                                only=('release:released', 'release:last', 'release:share'))),
+               ('release_k35_plain', ob_release(35, 0, light=True, other=False, shape=plain_batches, fixed=plain_fixed(35),
                                                 only=('release:released', 'release:last', 'release:share'))), ('order_independence', ob_order_frame), ('paid_once', ob_twice)]
 
 
